@@ -295,7 +295,50 @@ func mapperTotal(ph tmconsensus.HandleProposedHeaderResult, v tmconsensus.Handle
 	return ""
 }
 
+// checkFetchRequested: after a vote message for the voting round was accepted and the node stayed
+// in that round, every block that holds at least 1/3 of the power in the votes of that kind and
+// whose header the view lacks must have a fetch request the node still waits for (requested, not
+// cancelled, not answered) - otherwise the node can sit in the round with all votes and never commit.
+func checkFetchRequested(s *sim, op Op, before viewKey) {
+	if op.K != "vote" || op.DH != 0 || op.DR != 0 || !s.alive || s.fail != nil {
+		return
+	}
+	if before.H != s.vv.Height || before.R != s.vv.Round || len(s.lastVoteRes) == 0 {
+		return
+	}
+	if s.lastVoteRes[len(s.lastVoteRes)-1] != tmconsensus.HandleVoteProofsAccepted {
+		return
+	}
+	proofs := s.vv.PrevoteProofs
+	if op.Kind == 1 {
+		proofs = s.vv.PrecommitProofs
+	}
+	set := s.setFor(s.vv.Height)
+	_, per, _, _, _ := recomputeSummary(set, proofs, nil)
+	have := map[string]bool{}
+	for _, ph := range s.vv.ProposedHeaders {
+		have[string(ph.Header.Hash)] = true
+	}
+	for hash, pow := range per {
+		if hash == "" || have[hash] || !atLeastOneThird(pow, set.total()) {
+			continue
+		}
+		live := false
+		for _, o := range s.fetchOpen {
+			if o.H == s.vv.Height && o.Hash == hash && o.Ctx.Err() == nil {
+				live = true
+			}
+		}
+		if !live {
+			s.failf("", "missing-header-not-requested", "voting view %d/%d holds %s of %s power for block %s without its header, a vote for that round was just accepted, and the node has no fetch request for it that it still waits for", s.vv.Height, s.vv.Round, pow, set.total(), hx([]byte(hash)))
+			return
+		}
+		s.label("missing-header-fetch-live")
+	}
+}
+
 func c09Oracle(s *sim, op Op, idx int) {
+	checkFetchRequested(s, op, s.posBeforeOp)
 	for _, r := range s.lastPHRes {
 		if !definedPHResults[r] {
 			s.failf("", "undefined-result", "HandleProposedHeader returned undefined result %d", r)
